@@ -10,11 +10,13 @@ K  `Alignment(start, end).align_molecules(restr, deform, ignore_hydrogens)` is r
 S  the property text evaluated on the unwrapped implementation (`oracle_case`): which molecule moved and by which
    vector, bonded distances (acyclic mobile molecule), all pairwise distances (no single-atom moves), order and names,
    finiteness, bit-identical repetition (twice in-process; in two fresh subprocesses with different PYTHONHASHSEED),
-   caller's objects untouched.  Cases are grouped in SESSIONS (several alignments in one process, among them runs of
+   caller's objects untouched (the two Molecule objects and the restraint list: deep copy before, == after; the
+   repetition hands over the SAME list object).  Cases are grouped in SESSIONS (several alignments in one process, among them runs of
    different molecules with the same number of atoms) executed in fresh subprocesses, so that a failure that depends on
    what was aligned before in the process is found and its replay (the session) reproduces it.
 """
 import contextlib
+import copy
 import io
 import json
 import math
@@ -39,7 +41,9 @@ Open Scope float_scope.
 RULE = ("pairs of molecules of 1..40 atoms (sizes mostly 1..14, one case in five with equal sizes, one in six up to 40; "
         "either one larger), built on random trees grown with bond lengths 0.10-0.20 nm (one in five with extra ring-closing "
         "bonds, fixed molecule sometimes a forest), 1-3 residues, atom names C/N/O/H-like (hydrogens 30 %), velocities on "
-        "half of them; shipped BMIM/BF4/CUR/VTE pairs; restraint lists none/empty/partial/duplicated/complete; deformation "
+        "half of them; shipped BMIM/BF4/CUR/VTE pairs; restraint lists none/empty/partial/duplicated/complete (one list object per case, handed to the call and to its "
+        "repetition and compared with its deep copy; about a quarter of the alignments have start smaller than end and a list "
+        "that is not symmetric under (i, j) -> (j, i); on re-used objects the last alignment uses the first one's list); deformation "
         "types default or any non-empty subset of {0,1,2} (permuted, repeated; type 2 only when the mobile molecule has >= 2 "
         "atoms); ignore_hydrogens on/off; STEPS_FACTOR 2..20 (budget capped at ~150 passes without improvement); numpy "
         "seed per case.  Sessions: runs of 8-14 alignments whose mobile molecules have the same number of atoms and "
@@ -615,11 +619,17 @@ def capped_passes(cap):
         B.accept_metropolis = saved
 
 
-def run_plain(start, end, case, ali=None):
+KEEP = object()
+
+
+def run_plain(start, end, case, ali=None, restr_obj=KEEP):
     """one alignment on the implementation (on the Alignment object `ali` when given, else on a fresh one).  Returns (ali, exception or None); run_plain.nan_trials = number of passes
-    of that run whose trial measure was nan"""
+    of that run whose trial measure was nan.  `restr_obj`: the restraint list OBJECT to hand to align_molecules (the caller
+    of run_plain owns it and may hand the same object to several calls); by default a new list is built from the case"""
     import gaddlemaps._alignment as A
     restr, deform, ign, autog = call_args(case)
+    if restr_obj is not KEEP:
+        restr = restr_obj
     state = np.random.get_state()
     err = None
     run_plain.nan_trials = 0
@@ -1045,6 +1055,16 @@ def judge(case, before_s, before_e, adj_s, adj_e, after_s, after_e, nan_trials):
     return bad
 
 
+def restr_changed_msg(restr, restr_before, after):
+    """the restraint list is an input supplied by the caller like the molecules: None when the list object still holds
+    the same pairs in the same order (== against the deep copy taken before the call), else what changed"""
+    if restr is None or restr == restr_before:
+        return None
+    return ("the restraint list supplied by the caller was modified by %s: %s -> %s%s" %
+            (after, str(restr_before)[:160], str(restr)[:160],
+             " (the (start, end) pairs were swapped in place)" if restr == [tuple(p[::-1]) for p in restr_before] else ""))
+
+
 def oracle_case(case, repeat=True):
     """evaluates the clauses of C06 on one alignment.  Returns (list of failed clauses, outcome) where outcome =
     final positions of both molecules as hex strings (None when the call raised)."""
@@ -1053,8 +1073,15 @@ def oracle_case(case, repeat=True):
     adj_s, adj_e = mol_view(start)[1], mol_view(end)[1]
     if not in_domain(case, start, end):
         return [], None
-    ali, err = run_plain(start, end, case)
+    # the caller's restraint list: ONE list object for the call and its repetition, deep copy taken before the call
+    restr = call_args(case)[0]
+    restr_before = copy.deepcopy(restr)
+    ali, err = run_plain(start, end, case, restr_obj=restr)
     bad = []
+    inputs_bad = []          # caller's restraint list modified: reported together with the repetition below
+    m = restr_changed_msg(restr, restr_before, "align_molecules")
+    if m:
+        inputs_bad.append(m)
     # the caller's objects are never modified (also when the call raises): both halves (topology and coordinates)
     # bit for bit, and the objects still usable
     for what, mol, snap in (("the start Molecule supplied by the caller", start, before_s),
@@ -1064,14 +1091,14 @@ def oracle_case(case, repeat=True):
             bad.append(m)
     if err is not None:
         if isinstance(err, RunAway):
-            return bad, {"runaway": True}
+            return (bad + inputs_bad if bad else bad), {"runaway": True}
         if case.get("expect_error"):
-            return bad, None
+            return (bad + inputs_bad if bad else bad), None
         # a mobile molecule that is not connected is refused with IOError (documented): not an outcome
         if isinstance(err, OSError):
-            return bad, None
+            return (bad + inputs_bad if bad else bad), None
         bad.append("align_molecules raised %r on an input of the property's domain" % (err,))
-        return bad, None
+        return bad + inputs_bad, None
     after_s, after_e = snapshot(ali.start), snapshot(ali.end)
     nan_trials = run_plain.nan_trials
     for tag, mol in (("start", ali.start), ("end", ali.end)):
@@ -1080,18 +1107,28 @@ def oracle_case(case, repeat=True):
             bad.append("the %s molecule of the Alignment can no longer be iterated / copied (%s)" % (tag, u))
     bad += judge(case, before_s, before_e, adj_s, adj_e, after_s, after_e, nan_trials)
     if bad:
-        return bad, None
+        return bad + inputs_bad, None
     outcome = {"digest": pos_digest(after_s["pos"], after_e["pos"]), "nan_trials": int(nan_trials)}
-    # bit-identical when repeated with the same seed
+    # bit-identical when repeated with the same seed: the very same call again - the same Molecule objects, the SAME
+    # restraint list object, the same deformation types and numpy seed (what a caller does who aligns twice with an
+    # already parsed restraint list)
     if repeat:
-        ali2, err2 = run_plain(start, end, case)
-        if err2 is not None:
-            bad.append("repetition with the same seed raised %r" % (err2,))
+        same = "" if restr is None else " (same Molecule objects and same restraint list object %s)" % (str(restr_before)[:120],)
+        ali2, err2 = run_plain(start, end, case, restr_obj=restr)
+        if isinstance(err2, RunAway):
+            bad.append("repetition with the same inputs and seed%s ran away while the first run ended" % same)
+        elif err2 is not None:
+            bad.append("repetition with the same inputs and seed%s raised %r while the first run succeeded" % (same, err2))
         elif not (bits_equal(ali2.start.atoms_positions, after_s["pos"]) and bits_equal(ali2.end.atoms_positions, after_e["pos"])):
-            bad.append("repetition with the same inputs and seed in the same process gave a different outcome "
-                       "(max |dx| = %.3g nm)" % max(np.abs(ali2.start.atoms_positions - after_s["pos"]).max(),
-                                                     np.abs(ali2.end.atoms_positions - after_e["pos"]).max()))
-    return bad, outcome
+            bad.append("repetition with the same inputs and seed in the same process%s gave a different outcome "
+                       "(max |dx| = %.3g nm)" % (same, max(np.abs(ali2.start.atoms_positions - after_s["pos"]).max(),
+                                                           np.abs(ali2.end.atoms_positions - after_e["pos"]).max())))
+        m = restr_changed_msg(restr, restr_before, "the two calls together")
+        if m and not inputs_bad:
+            inputs_bad.append(m)
+    # a modified restraint list is not a clause of C06 (the statement names the Molecule objects): it is reported as the
+    # explanation of a failed clause (the repetition above), never on its own
+    return (bad + inputs_bad if bad else bad), (None if bad else outcome)
 
 
 def reconfigured(spec, op, molname):
@@ -1114,12 +1151,18 @@ def run_reuse_once(case, judge_it=True):
     with contextlib.redirect_stdout(io.StringIO()):
         ali = A.Alignment(start, end)
     bad, outcomes = [], []
+    notes = []
+    lists = {}          # restraint lists held by the caller: operations with the same pairs hand over the SAME list object
 
     def callers_untouched(after):
         for what, mol, snap in handed:
             m = modified_msg(what, mol, snap)
             if m:
                 bad.append("%s (found after %s)" % (m, after))
+        for _, (obj, before) in sorted(lists.items()):
+            m = restr_changed_msg(obj, before, after)
+            if m and m not in notes:
+                notes.append(m)          # explanation only: not a clause of C06 on its own
     callers_untouched("construction")
     for k, op in enumerate(case["ops"]):
         if bad:
@@ -1140,7 +1183,10 @@ def run_reuse_once(case, judge_it=True):
             continue
         before_s, before_e = snapshot(ali.start), snapshot(ali.end)
         adj_s, adj_e = mol_view(ali.start)[1], mol_view(ali.end)[1]
-        _, err = run_plain(None, None, op, ali=ali)
+        restr = call_args(op)[0]
+        if restr is not None:
+            restr = lists.setdefault(json.dumps(op["restr"]), (restr, copy.deepcopy(restr)))[0]
+        _, err = run_plain(None, None, op, ali=ali, restr_obj=restr)
         callers_untouched("align_molecules #%d" % k)
         if err is not None:
             if isinstance(err, RunAway):
@@ -1155,7 +1201,7 @@ def run_reuse_once(case, judge_it=True):
             bad += ["align_molecules #%d: %s" % (k, b) for b in
                     judge(op, before_s, before_e, adj_s, adj_e, after_s, after_e, run_plain.nan_trials)]
         outcomes.append({"digest": pos_digest(after_s["pos"], after_e["pos"])})
-    return bad, outcomes
+    return (bad + notes if bad else bad), outcomes
 
 
 def oracle_reuse(case, repeat=True):
@@ -1210,6 +1256,9 @@ def gen_reuse_case(rs, base=None):
         if which in ("end", "both"):
             ops.append(set_op("end"))
         ops.append(align_op())
+    if ops[0]["restr"] and c.get("tagged_residues") is None:
+        # the last alignment is made with the restraint list of the first one (the oracle hands over the same list object)
+        ops[-1]["restr"] = [list(p) for p in ops[0]["restr"]]
     return {"kind": "reuse", "start": c["start"], "end": c["end"], "ops": ops}
 
 
@@ -1223,6 +1272,32 @@ def reuse_witness_case():
             "ops": [dict(opt), {"op": "set_start", "rot": [[0, -1, 0], [1, 0, 0], [0, 0, 1]], "shift": [1.5, -0.7, 2.0]},
                     dict(opt), {"op": "set_end", "rot": [[1, 0, 0], [0, 0, -1], [0, 1, 0]], "shift": [-0.5, 0.25, 1.0]},
                     dict(opt, seed=4)]}
+
+
+def restraint_list_witness_cases():
+    """seeded/C06-12/demo.py: a 6-atom chain (start, the mobile one) on a 12-atom chain (end), restraint list
+    [(0, 3), (2, 5), (5, 1)] (not symmetric under (i, j) -> (j, i)), types (0, 1, 2), hydrogens kept, STEPS_FACTOR 40,
+    seed 7: the oracle repeats the call with the same list object; and the control with the larger molecule as start"""
+    def chain(n, seed, resn):
+        rng = np.random.RandomState(seed)
+        pos = np.zeros((n, 3))
+        for i in range(1, n):
+            step = rng.normal(size=3)
+            pos[i] = pos[i - 1] + 0.15 * step / np.linalg.norm(step)
+        pos += rng.uniform(1, 3, 3)
+        return {"atoms": [["C%d" % (i + 1), resn, 1] for i in range(n)], "pos": pos.tolist(),
+                "bonds": [[i, i + 1] for i in range(n - 1)]}
+    small, big = chain(6, 11, "SML"), chain(12, 12, "BIG")
+    restr = [[0, 3], [2, 5], [5, 1]]
+    opt = {"deform": [0, 1, 2], "ign": False, "autog": True, "sf": 40, "seed": 7}
+    return [dict(opt, kind="pair", start=small, end=big, restr=restr),
+            dict(opt, kind="pair", start=big, end=small, restr=[[j, i] for i, j in restr])]
+
+
+def nonsymmetric_restraints(case):
+    """the case hands over a restraint list that differs from its (i, j) -> (j, i) image"""
+    r = case.get("restr")
+    return bool(r) and [list(p) for p in r] != [list(p)[::-1] for p in r]
 
 
 def run_session_here(cases, repeat=True):
@@ -1352,6 +1427,7 @@ def corpus(ctx):
     cases.append(reuse_witness_case())
     cases.extend(tagged_witness_cases())        # seeded/C06-10 witness: residue names differing by containment
     cases.append(dna_case(seed=1))              # shipped DNA pair (DC5 ... / DC ...)
+    cases.extend(restraint_list_witness_cases())    # seeded/C06-12 witness: the same restraint list object used twice
     rs = np.random.RandomState(608)
     for _ in range(3):
         cases.append(gen_tagged_case(rs))
@@ -1566,13 +1642,22 @@ def oracle(ctx, scale):
             cs.insert(int(rs.randint(len(cs) + 1)), gen_case(rs))
         sessions.append({"kind": "session", "cases": cs})
     hist = {"tie": 0, "start_mobile": 0, "end_mobile": 0, "degenerate": 0, "reused_objects": 0, "reassignments": 0,
-            "tagged_residue_names": 0, "shipped_dna": 0}
+            "tagged_residue_names": 0, "shipped_dna": 0, "user_restraints": 0, "start_mobile_nonsymmetric_restraints": 0,
+            "reused_objects_same_list_twice": 0}
     for s in sessions:
         for c in s["cases"]:
             ns = len(c["start"].get("atoms", [])) or 0
             ne = len(c["end"].get("atoms", [])) or 0
             if ns and ne:
                 hist["tie" if ns == ne else ("start_mobile" if ns < ne else "end_mobile")] += 1
+            if c.get("kind") == "reuse":
+                als = [o for o in c["ops"] if o["op"] == "align"]
+                if als[0].get("restr") and any(o.get("restr") == als[0]["restr"] for o in als[1:]):
+                    hist["reused_objects_same_list_twice"] += 1
+            elif c.get("restr"):
+                hist["user_restraints"] += 1
+                if ns and ne and ns < ne and nonsymmetric_restraints(c):
+                    hist["start_mobile_nonsymmetric_restraints"] += 1
             if c.get("degenerate"):
                 hist["degenerate"] += 1
             if c.get("tagged_residues"):
